@@ -4,7 +4,7 @@ import ast
 from ..core import sym
 from ..core.expand import u, call_name, get_arg, bind_args, Expander, is_marker, phi_alternatives
 from ..core.loader import Inconclusive, const_value, parents
-from .common import (accumulation_as_sum, returns, all_nodes, callee, strip_shape, calls_in, guards_of, stmt_of, kw, find_assignments, compare_nf)
+from .common import (accumulation_as_sum, returns, all_nodes, callee, strip_shape, calls_in, guards_of, stmt_of, kw, find_assignments, compare_nf, path_values)
 
 EXPLANATION = (
     "Decided: D1 no lossy step on a time quantity: no int()/floor/floor-division/truncation is applied to float "
@@ -219,27 +219,38 @@ def rule_formats(ck):
     ck.clause('D3')
     f = P.func(T + 'parse_string_format')
     p = f.positional_params[0]
-    base = None
-    frac = off = False
-    for n in all_nodes(f):
-        if isinstance(n, ast.Assign) and isinstance(n.targets[0], ast.Name) and isinstance(n.value, ast.Constant) and not guards_of(n, f.node):
-            base = n.value.value
-        if isinstance(n, ast.If):
-            t = u(n.test)
-            body = ' '.join(u(s) for s in n.body)
-            if t == "'.' in %s" % p and "'%Y-%m-%d %H:%M:%S.%f'" in body:
-                frac = True
-            if t == "%s[-6] == '+'" % p and "%z" in body and '+' in body:
-                off = True
     o = ck.ob('C15-D3.sniff', f, 'fraction iff ".", %z iff offset', f.node)
+    # path-sensitive constant propagation: the format returned for each combination of (has a '.', ends with an offset)
+    fr_lit, off_lit = "'.' in %s" % p, "%s[-6] == '+'" % p
+    seen = {}
     probs = []
-    if base != '%Y-%m-%d %H:%M:%S':
-        probs.append('base format is %r' % base)
-    if not frac:
-        probs.append('the fractional-seconds format is not selected exactly when "." occurs in the string')
-    if not off:
-        probs.append('%z is not appended exactly when the string ends with a +HH:MM offset')
-    (o.fail('; '.join(probs)) if probs else o.ok())
+    try:
+        paths = path_values(f)
+    except Inconclusive as e:
+        paths = []
+        probs.append(str(e))
+    for conds, val in paths:
+        cd = dict(conds)
+        other = [c for c in cd if c not in (fr_lit, off_lit)]
+        if other:
+            probs.append('the format depends on `%s`' % other[0])
+            continue
+        v = const_value(val)
+        for fr in ([cd[fr_lit]] if fr_lit in cd else [True, False]):
+            for of in ([cd[off_lit]] if off_lit in cd else [True, False]):
+                seen.setdefault((fr, of), set()).add(v if isinstance(v, str) else u(val))
+    for fr in (True, False):
+        for of in (True, False):
+            want = '%Y-%m-%d %H:%M:%S' + ('.%f' if fr else '') + ('%z' if of else '')
+            got = seen.get((fr, of), set())
+            if got != {want} and not probs:
+                if not fr and not of and got:
+                    probs.append('base format is %s' % sorted(got))
+                elif fr != ('.%f' in ''.join(map(str, got))) or not got:
+                    probs.append('the fractional-seconds format is not selected exactly when "." occurs in the string')
+                else:
+                    probs.append('%z is not appended exactly when the string ends with a +HH:MM offset')
+    (o.fail('; '.join(probs)) if probs else o.ok('four combinations, four formats'))
     g = P.func(T + 'strptime_to_utc_epoch')
     ex = Expander(P, g)
     r = [x for x in returns(g) if x.value is not None]
@@ -276,6 +287,55 @@ def _same_sum(acc, want):
     return u(ra.visit(sym.clone(acc))) == u(rw.visit(sym.clone(w)))
 
 
+def _yearlen_probs(f, var=None):
+    """path-sensitive reading of the year length: 366 exactly on the paths where calendar.isleap(...) holds, 365 on the others.
+    The variable is whatever local receives the constants 365 / 366 (directly or as the arms of a conditional expression); a
+    conditional expression that is used in place is read by itself."""
+    def is_len(e):
+        v = const_value(e)
+        return v is not NotImplemented and isinstance(v, (int, float)) and v in (365, 366)
+    names = []
+    inline = []
+    for n in all_nodes(f):
+        if isinstance(n, ast.Assign) and len(n.targets) == 1 and isinstance(n.targets[0], ast.Name):
+            v = n.value
+            if is_len(v) or (isinstance(v, ast.IfExp) and is_len(v.body) and is_len(v.orelse)):
+                if n.targets[0].id not in names:
+                    names.append(n.targets[0].id)
+        if isinstance(n, ast.IfExp) and is_len(n.body) and is_len(n.orelse):
+            p_ = getattr(n, '_parent', None)
+            if not (isinstance(p_, ast.Assign) and p_.value is n):
+                inline.append(n)
+    if var is not None and var not in names:
+        names.append(var)
+    probs = []
+    n_ok = 0
+    for e in inline:
+        if 'isleap' in u(e.test) and not (isinstance(e.test, ast.UnaryOp)) and const_value(e.body) == 366 and const_value(e.orelse) == 365:
+            n_ok += 2
+        elif isinstance(e.test, ast.UnaryOp) and isinstance(e.test.op, ast.Not) and 'isleap' in u(e.test) and const_value(e.body) == 365 and const_value(e.orelse) == 366:
+            n_ok += 2
+        else:
+            probs.append('year length `%s` does not give 366 days exactly for leap years' % u(e))
+    for nm in names:
+        try:
+            paths = path_values(f, nm)
+        except Inconclusive as e:
+            return [str(e)]
+        for conds, val in paths:
+            leap = [pol for c, pol in conds if 'isleap' in c]
+            v = const_value(val)
+            if len(leap) != 1 or v is NotImplemented:
+                probs.append('year length `%s` is not selected by the leap-year test' % u(val))
+            elif v != (366 if leap[0] else 365):
+                probs.append('%s days for a %s year' % (v, 'leap' if leap[0] else 'common'))
+            else:
+                n_ok += 1
+    if n_ok < 2 and not probs:
+        probs.append('year length values / leap branch do not give 366 days exactly for leap years')
+    return probs
+
+
 def rule_decimal_year(ck):
     P = ck.prog
     ck.clause('D4')
@@ -291,11 +351,9 @@ def rule_decimal_year(ck):
     else:
         o.ok()
     ndy = find_assignments(f, 'num_days_per_year')
-    vals = sorted(const_value(a.value) for a in ndy if const_value(a.value) is not NotImplemented)
     o = ck.ob('C15-D4.yearlen', f, 'num_days_per_year in {365, 366}', ndy[0] if ndy else f.node)
-    leap_assign = [a for a in ndy if any('isleap' in u(t) and pol for t, pol in guards_of(a, f.node))]
-    (o.ok() if vals == [365.0, 366.0] and leap_assign and const_value(leap_assign[0].value) == 366 else
-     o.fail('year length values %s / leap branch do not give 366 days exactly for leap years' % vals))
+    probs = _yearlen_probs(f)
+    (o.fail('; '.join(probs[:3])) if probs else o.ok())
     # days in preceding months
     nd = find_assignments(f, 'num_days')
     o = ck.ob('C15-D4.months', f, nd[0] if nd else 'days in preceding months', nd[0] if nd else f.node)
@@ -331,6 +389,8 @@ def rule_decimal_year(ck):
     good = bool(leaps) and N.nf(exg.expand(leaps[0].args[0])) == N.nf('%s // 1' % p)
     yf = [a for a in find_assignments(g, 'year_frac')]
     good = good and yf and N.nf(yf[0].value) == N.nf('%s %% 1' % p)
+    if good and _yearlen_probs(g):
+        good = False
     (o.ok('year = y // 1, fraction = y % 1, leap rule on that year') if good else
      o.fail('the inverse does not split the decimal year into (y // 1, y % 1) with the leap rule on that year'))
     r = [x for x in returns(g) if x.value is not None]
@@ -340,7 +400,12 @@ def rule_decimal_year(ck):
         txt = u(e)
         want_us = [N.nf('__phi__(%s) * 24 * 60 * 60 * 1000000.0 * (%s %% 1)' % (o_, p)) for o_ in ('365.0, 366.0', '366.0, 365.0')]
         tds = [c for c in ast.walk(e) if isinstance(c, ast.Call) and call_name(c) == 'datetime.timedelta']
-        good = len(tds) == 1 and kw(tds[0], 'microseconds') is not None and N.nf(kw(tds[0], 'microseconds')) in want_us and \
+        class _Phi(ast.NodeTransformer):     # a conditional expression and a phi of two assignments are the same pair of values here
+            def visit_IfExp(self, n):
+                self.generic_visit(n)
+                return ast.Call(func=ast.Name(id='__phi__', ctx=ast.Load()), args=[n.body, n.orelse], keywords=[])
+        us = kw(tds[0], 'microseconds') if len(tds) == 1 else None
+        good = us is not None and N.nf(_Phi().visit(sym.clone(us))) in want_us and \
             'datetime.datetime(builtins.int(%s // 1), 1, 1, 0, 0, 0, 0)' % p in txt and txt.endswith('.replace(tzinfo=datetime.timezone.utc)')
         (o.ok('Jan 1 of the year + fraction * year length, tagged UTC') if good else
          o.fail('the inverse is `%s`, expected datetime(year,1,1) + timedelta(microseconds = year_length_us * fraction) in UTC' % txt[:120]))
